@@ -4,15 +4,21 @@ Used in a child process:  python -m vp.schedrun cases.json results.jsonl
 (one JSON line per case, flushed, so that a hang is attributed to a case).'''
 import _thread
 import collections.abc
+import contextlib
 import copy
+import io
 import json
+import logging
+import os
 import pickle
 import random
 import sys
+import time
 import types
+import warnings
 
 OUTCOMES = ['done', 'failupd', 'failnone', 'raise', 'none', 'notpair', 'badstatus',
-            'badupdate', 'waitstatus', 'intstatus', 'donenone']
+            'badupdate', 'waitstatus', 'intstatus', 'donenone', 'clash']
 # model view of an outcome: (has_upd, ok)
 OUTCOME_MODEL = {'done': (True, True), 'poison': (True, True), 'failupd': (True, False), 'intstatus': (True, True), 'nested': (True, True), 'donenone': (False, True)}
 
@@ -125,100 +131,126 @@ class World:
                 return self.idx not in world.falsy
 
             def do(self, env, config):
-                ctl = world.harness.ctl
-                ctl.yield_point('task_start', self.idx)
-                world.exec_count[self.idx] += 1
-                world.run_execs[self.idx] += 1
-                k = world.exec_count[self.idx]
-                obs = {}
-                for d in self.deps_idx:
-                    ent = env.dictionary.get(f't{d}')
-                    own = env.dictionary.get(self.name) or {}
-                    obs[d] = None if ent is None else (
-                        _status_code(ent.get('status')), ent.get('payload'),
-                        ent.get('start_clock') is not None and ent.get('end_clock') is not None,
-                        world.expected_payload[d],
-                        # what dependency d filed under THIS task's name, and what it should be
-                        own.get(f'gift_{d}') if isinstance(own, dict) else 'junk',
-                        world.gifts.get((d, self.idx)))
-                ctl.note('obs', obs)
-                kind, _, var = world.outcomes[self.idx].partition(':')
-                var = int(var or 0)
-                if kind in ('done', 'intstatus', 'failupd', 'nested', 'poison'):
-                    world.expected_payload[self.idx] = k     # this execution's update carries payload k
-                upd = {self.name: {'payload': k}}
-                if kind == 'nested':
-                    # a task that schedules a small graph of its own, with the default backend
-                    inner = world.Inner(f'inner_of_{self.name}')
-                    world.Scheduler(hard_graph=world.DepGraph.from_dependency_dictionary({inner: []})).schedule()
-                    return upd, TaskStatus.DONE
-                if kind == 'done' and var % 4 == 2:
-                    # part of the update goes into the entries of the tasks that depend on this one
-                    for dep_t in self.dependents:
-                        ent = env.dictionary.get(f't{dep_t}')
-                        if isinstance(ent, dict) and 'status' in ent:
-                            # (only into entries the master has already created: an entry without
-                            # a status is outside what the model describes)
-                            upd[f't{dep_t}'] = {f'gift_{self.idx}': k}
-                            world.gifts[(self.idx, dep_t)] = k
-                if kind == 'poison':
-                    # a well-formed update that files something the master cannot read as a status
-                    # under the name of a task that depends on this one
-                    for dep_t in self.dependents[:1]:
-                        upd[f't{dep_t}'] = {'status': ['bogus', 'DONE', 77, None][var % 4]}
-                    return upd, TaskStatus.DONE
-                if kind == 'done':
-                    if var % 4 == 1:
-                        # a task that returns its whole (previous) entry, clocks included
-                        upd[self.name].update(start_clock=0.0, end_clock=0.0)
-                    shape = (var // 4) % 6
-                    if shape == 2:
-                        # a read-only mapping is a mapping (what PythonTask hands out as env)
-                        upd = types.MappingProxyType(upd)
-                    elif shape == 3:
-                        # values that cannot be copied or pickled (the harness drops them before it
-                        # pickles the environment, as a user would have to)
-                        upd[self.name]['handle'] = (_thread.allocate_lock() if var % 8 < 4
-                                                    else (x for x in [1]))
-                    elif shape == 4:
-                        upd = FrozenMap(upd)
-                    elif shape == 5:
-                        upd[self.name]['deep'] = {'a': {'b': {'k': k}}, 'l': [k, {'k': k}]}
-                    return upd, TaskStatus.DONE
-                if kind == 'intstatus':
-                    return upd, 3
-                if kind == 'failupd':
-                    return upd, TaskStatus.FAILED
-                if kind == 'failnone':
-                    return None, TaskStatus.FAILED
-                if kind == 'donenone':
-                    return None, TaskStatus.DONE
-                if kind == 'raise':
-                    if var % 6 == 4:
-                        raise BadStr()
-                    if var % 6 == 5:
-                        sys.exit(3)
-                    raise [RuntimeError, KeyError, ValueError, OSError][var % 4]('probe task fails')
-                if kind == 'none':
-                    return None
-                if kind == 'notpair':
-                    return [(upd, TaskStatus.DONE, 'extra'), (upd,), 5, 'ab', (), [upd],
-                            {'a': 1, 'b': 2}][var % 7]
-                if kind == 'badstatus':
-                    return upd, ['bogus', 0, None, 99, 'DONE', -1, (3,)][var % 7]
-                if kind == 'badupdate':
-                    return [[1, 2, 3], [], (), '', 0, False, set(), 'abc', 5, {self.name: 5},
-                            {self.name: 'text'}, {self.name: None}][var % 12], TaskStatus.DONE
-                if kind == 'roown':
-                    # the task's own entry as a read-only mapping (cannot hold the clocks): whether this
-                    # counts as malformed (FAILED) or is accepted (DONE) is the implementation's choice;
-                    # the worker must survive it (C03 only, not replayed on the model)
-                    return {self.name: [types.MappingProxyType({'payload': k}),
-                                        FrozenMap({'payload': k})][var % 2]}, TaskStatus.DONE
-                if kind == 'waitstatus':
-                    return upd, [TaskStatus.WAITING, TaskStatus.PENDING, TaskStatus.SKIPPED, True][var % 4]
-                raise AssertionError(kind)
+                return probe_do(self, env, config, env.dictionary.get)
+
+        def probe_do(self, env, config, get):
+            ctl = world.harness.ctl
+            ctl.yield_point('task_start', self.idx)
+            world.exec_count[self.idx] += 1
+            world.run_execs[self.idx] += 1
+            k = world.exec_count[self.idx]
+            obs = {}
+            for d in self.deps_idx:
+                ent = get(f't{d}')
+                own = get(self.name) or {}
+                obs[d] = None if ent is None else (
+                    _status_code(ent.get('status')), ent.get('payload'),
+                    ent.get('start_clock') is not None and ent.get('end_clock') is not None,
+                    world.expected_payload[d],
+                    # what dependency d filed under THIS task's name, and what it should be
+                    own.get(f'gift_{d}') if isinstance(own, dict) else 'junk',
+                    world.gifts.get((d, self.idx)))
+            ctl.note('obs', obs)
+            if world.log_env:
+                PROBE_LOGGER.info('task %s sees %s', self.name, env)
+            kind, _, var = world.outcomes[self.idx].partition(':')
+            var = int(var or 0)
+            if kind in ('done', 'intstatus', 'failupd', 'nested', 'poison'):
+                world.expected_payload[self.idx] = k     # this execution's update carries payload k
+            upd = {self.name: {'payload': k}}
+            if kind == 'nested':
+                # a task that schedules a small graph of its own, with the default backend
+                inner = world.Inner(f'inner_of_{self.name}')
+                world.Scheduler(hard_graph=world.DepGraph.from_dependency_dictionary({inner: []})).schedule()
+                return upd, TaskStatus.DONE
+            if kind == 'done' and var % 4 == 2:
+                # part of the update goes into the entries of the tasks that depend on this one
+                for dep_t in self.dependents:
+                    ent = get(f't{dep_t}')
+                    if isinstance(ent, dict) and 'status' in ent:
+                        # (only into entries the master has already created: an entry without
+                        # a status is outside what the model describes)
+                        upd[f't{dep_t}'] = {f'gift_{self.idx}': k}
+                        world.gifts[(self.idx, dep_t)] = k
+            if kind == 'clash':
+                # a well-formed update that Env.apply cannot merge (a mapping where the environment
+                # holds a plain value): publish() records the task as FAILED
+                return {f'aux_{self.name}': {'x': k}}, TaskStatus.DONE
+            if kind == 'poison':
+                # a well-formed update that files something the master cannot read as a status
+                # under the name of a task that depends on this one
+                for dep_t in self.dependents[:1]:
+                    upd[f't{dep_t}'] = {'status': ['bogus', 'DONE', 77, None][var % 4]}
+                return upd, TaskStatus.DONE
+            if kind == 'done':
+                if var % 4 == 1:
+                    # a task that returns its whole (previous) entry, clocks included
+                    upd[self.name].update(start_clock=0.0, end_clock=0.0)
+                shape = (var // 4) % 6
+                if shape == 2:
+                    # a read-only mapping is a mapping (what PythonTask hands out as env)
+                    upd = types.MappingProxyType(upd)
+                elif shape == 3:
+                    # values that cannot be copied or pickled (the harness drops them before it
+                    # pickles the environment, as a user would have to)
+                    upd[self.name]['handle'] = (_thread.allocate_lock() if var % 8 < 4
+                                                else (x for x in [1]))
+                elif shape == 4:
+                    upd = FrozenMap(upd)
+                elif shape == 5:
+                    upd[self.name]['deep'] = {'a': {'b': {'k': k}}, 'l': [k, {'k': k}]}
+                    # keys of nested levels may be named like top-level entries (other tasks)
+                    for other in range(len(world.outcomes)):
+                        upd[self.name][f't{other}'] = {f't{(other + 1) % len(world.outcomes)}': {'k': k}}
+                return upd, TaskStatus.DONE
+            if kind == 'intstatus':
+                return upd, 3
+            if kind == 'failupd':
+                return upd, TaskStatus.FAILED
+            if kind == 'failnone':
+                return None, TaskStatus.FAILED
+            if kind == 'donenone':
+                return None, TaskStatus.DONE
+            if kind == 'raise':
+                if var % 6 == 4:
+                    raise BadStr()
+                if var % 6 == 5:
+                    sys.exit(3)
+                raise [RuntimeError, KeyError, ValueError, OSError][var % 4]('probe task fails')
+            if kind == 'none':
+                return None
+            if kind == 'notpair':
+                return [(upd, TaskStatus.DONE, 'extra'), (upd,), 5, 'ab', (), [upd],
+                        {'a': 1, 'b': 2}][var % 7]
+            if kind == 'badstatus':
+                return upd, ['bogus', 0, None, 99, 'DONE', -1, (3,)][var % 7]
+            if kind == 'badupdate':
+                return [[1, 2, 3], [], (), '', 0, False, set(), 'abc', 5, {self.name: 5},
+                        {self.name: 'text'}, {self.name: None}][var % 12], TaskStatus.DONE
+            if kind == 'roown':
+                # the task's own entry as a read-only mapping (cannot hold the clocks): whether this
+                # counts as malformed (FAILED) or is accepted (DONE) is the implementation's choice;
+                # the worker must survive it (C03 only, not replayed on the model)
+                return {self.name: [types.MappingProxyType({'payload': k}),
+                                    FrozenMap({'payload': k})][var % 2]}, TaskStatus.DONE
+            if kind == 'waitstatus':
+                return upd, [TaskStatus.WAITING, TaskStatus.PENDING, TaskStatus.SKIPPED, True][var % 4]
+            raise AssertionError(kind)
         self.Probe = Probe
+
+        def make_pyprobe(idx, deps_idx):
+            '''the same probe as a PythonTask: the function gets the environment as a keyword
+            argument (a read-only view built by PythonTask.do at every execution)'''
+            from valjean.cosette.pythontask import PythonTask
+            holder = {}
+
+            def func(env=None, config=None):
+                return probe_do(holder['task'], env, config, env.get)
+            task = PythonTask(f't{idx}', func, env_kwarg='env', config_kwarg='config')
+            task.idx, task.deps_idx, task.dependents = idx, deps_idx, []
+            holder['task'] = task
+            return task
+        self.make_pyprobe = make_pyprobe
 
         class Inner(Task):
             def do(self, env, config):
@@ -262,6 +294,19 @@ def _status_code(status):
     return STATUS_NAMES.get(code, 'JUNK') if not isinstance(status, bool) else 'JUNK'
 
 
+def _clock(x):
+    '''a recorded clock as an integer (clocks of another type are kept comparable if possible)'''
+    if x is None:
+        return None
+    try:
+        return int(x)
+    except (TypeError, ValueError):
+        try:
+            return int(x.timestamp() * 1e6)
+        except Exception:  # noqa
+            return -1
+
+
 def snapshot_env(env, n):
     out = []
     for t in range(n):
@@ -274,7 +319,7 @@ def snapshot_env(env, n):
         sc, ec = ent.get('start_clock'), ent.get('end_clock')
         out.append([None if st == 'absent' else _status_code(st),
                     pay if isinstance(pay, int) else None,
-                    None if sc is None else int(sc), None if ec is None else int(ec)])
+                    _clock(sc), _clock(ec)])
     return out
 
 
@@ -363,6 +408,35 @@ def explore(world, case, oracles, fake_ctx_cls, focus):
             'failures': failures, 'sample_runs': sample}
 
 
+PROBE_LOGGER = logging.getLogger('valjean.probe')
+
+
+@contextlib.contextmanager
+def special_process_state(case):
+    '''process-wide settings a caller may have: warnings turned into errors, logging at DEBUG level
+    with a handler that formats every record'''
+    stack = contextlib.ExitStack()
+    with stack:
+        if case.get('warn_error'):
+            stack.enter_context(warnings.catch_warnings())
+            warnings.simplefilter('error')
+        if case.get('log_env'):
+            logger = logging.getLogger('valjean')
+            handler = logging.StreamHandler(io.StringIO())
+            handler.setFormatter(logging.Formatter('%(asctime)s %(threadName)s %(name)s %(message)s'))
+            old_level, old_disable = logger.level, logging.root.manager.disable
+            logger.addHandler(handler)
+            logger.setLevel(1)
+            logging.disable(logging.NOTSET)
+
+            def undo():
+                logger.removeHandler(handler)
+                logger.setLevel(old_level)
+                logging.disable(old_disable)
+            stack.callback(undo)
+        yield
+
+
 def run_history(world, case):
     '''case: n, hard, soft, workers, init (list of entries or None), clock0,
     runs: [{outcomes, lost, strategy, seed}]'''
@@ -376,7 +450,9 @@ def run_history(world, case):
     world.expected_payload += [None] * (n - len(world.expected_payload))
     Env = world.env_mod.Env
     TaskStatus = world.TaskStatus
-    tasks = [world.Probe(t, full[t]) for t in range(n)]
+    pytasks = set(case.get('pytasks') or [])
+    tasks = [world.make_pyprobe(t, full[t]) if t in pytasks else world.Probe(t, full[t]) for t in range(n)]
+    world.log_env = bool(case.get('log_env'))
     world.gifts = {}
     world.falsy = set(case.get('falsy') or [])
     for t in range(n):
@@ -437,6 +513,13 @@ def run_history(world, case):
             choose = make_script_choose({int(a): b for a, b in run.get('script', {}).items()})
         else:
             choose = make_choose(run['strategy'], rng)
+        for t in range(n):
+            if run['outcomes'][t].partition(':')[0] == 'clash':
+                env.dictionary[f'aux_t{t}'] = 3
+        if run.get('tz'):
+            # the time zone of the process changes between runs (clocks are time.time() values)
+            os.environ['TZ'] = run['tz']
+            time.tzset()
         env0 = snapshot_env(env, n)
         started0 = list(world.exec_count)
         sched_box = {}
@@ -504,7 +587,8 @@ def run_history(world, case):
                 self.tie_mod = run.get('tie_mod', 0)
         world.detsched.Controller = ControllerAt
         try:
-            out = run_ctl()
+            with special_process_state(case):
+                out = run_ctl()
         finally:
             world.detsched.Controller = orig_controller
         trace = out['trace']
@@ -541,6 +625,8 @@ def run_history(world, case):
             for ent in env.dictionary.values():
                 if isinstance(ent, dict):
                     ent.pop('handle', None)
+            for key in [k for k in env.dictionary if k.startswith('aux_')]:
+                del env.dictionary[key]
             persisted = pickle.loads(pickle.dumps(env))
             for t in case['runs'][irun + 1].get('lost', []):
                 persisted.dictionary.pop(f't{t}', None)
